@@ -16,6 +16,14 @@ def run_scenario(case):
 
         def write(data):
             m = whole.match(bytes(data))
+            if m is None and bytes(data).startswith(b'{') and bytes(data).endswith(b'\n') and b'"error"' in bytes(data):
+                # the session's own reply to the peer's malformed message (sent inline by the reading loop): writer 99
+                bad['size'] = len(data)
+                wire.append(99)
+                if ft.paused:
+                    blind.append(99)
+                orig(data)
+                return
             if m is None:
                 # not one whole framed message: a piece of one (another writer can get in between the pieces)
                 fragments.append(len(data))
@@ -31,6 +39,16 @@ def run_scenario(case):
         ft.write = write
         outcome = {}
         tasks = []
+        bad = {'delivered': [], 'size': 1}
+        hung = []
+
+        def feed_bad():
+            # the peer's bytes hold a malformed message: the reading loop itself answers it (it is then a writer too).
+            # Delivered only while the transport is reading, and once per scenario (the loop may stay blocked)
+            ok = ft.reading and not ft.lost and not ft.closing and True not in bad['delivered']
+            bad['delivered'].append(ok)
+            if ok:
+                proto.data_received(b'{"bad json\n')
 
         async def sender(w, size):
             try:
@@ -44,12 +62,25 @@ def run_scenario(case):
             except Exception as e:
                 outcome[w] = 'other:' + type(e).__name__
 
+        sent_ids = []
+
         async def main():
+            await sessions.settle(3)          # the session's reading loop is waiting for bytes
             for ev in case['events']:
                 k = ev[0]
+                if k in ('send', 'sendbad'):
+                    sent_ids.append(ev[1])
                 if k == 'send':
                     tasks.append(loop.create_task(sender(ev[1], ev[2])))
                     await sessions.settle(3)          # the task runs up to its first suspension
+                elif k == 'bad':
+                    feed_bad()
+                    await sessions.settle(5)
+                elif k == 'sendbad':
+                    # a sender already scheduled when the bytes arrive: it writes first
+                    tasks.append(loop.create_task(sender(ev[1], ev[2])))
+                    feed_bad()
+                    await sessions.settle(5)
                 elif k == 'tick':
                     await sessions.settle(8)
                 elif k == 'drain':
@@ -58,17 +89,30 @@ def run_scenario(case):
                     if not ft.lost:
                         ft.closing = True
                         ft._lost()
+                        await sessions.settle(12)
+                        # writers blocked when the connection is lost are released: every sender, and the session's
+                        # reading loop if it was sending, has finished by now
+                        for w, t_ in zip(sent_ids, tasks):
+                            if not t_.done():
+                                hung.append(w)
+                        if not proto._process_messages_task.done():
+                            hung.append(99)
                 elif k == 'advance':
                     await asyncio.sleep(ev[1])
             await sessions.settle(10)
             # what went out, as a byte stream: it must be a sequence of whole messages
             stream = b''.join(bytes(x[1]) for x in ft.log if x[0] == 'write')
+            stream = re.sub(rb'\{[^\n]*"error"[^\n]*\}\n', b'', stream)      # the session's own reply to the malformed message
             frames = re.findall(rb'(\d+):x*\n', stream)
             garbled = b''.join(re.split(rb'\d+:x*\n', stream)) != b''
             if fragments and not garbled:
                 wire[:] = [int(f) for f in frames]
+            pt = proto._process_messages_task
+            if pt.done() and not pt.cancelled() and isinstance(pt.exception(), curio.TaskTimeout):
+                outcome[99] = 'timeout'         # the reading loop's own send ran into max_send_delay
             return {'garbled': garbled, 'wire': wire, 'blind': blind, 'timeouts': sorted((w for w, o in outcome.items() if o == 'timeout'),
                                                                     key=lambda w: w),
+                    'bad': bad, 'hung_after_lost': hung,
                     'reading': ft.reading, 'outcome': {str(k): v for k, v in outcome.items()},
                     'fragments': fragments[:10],
                     'aborted': any(x[0] == 'abort' for x in ft.log), 'pending': sum(1 for t in tasks if not t.done()),
@@ -87,7 +131,9 @@ class C15(Prop):
     shard = 100
     rule = ('scenarios of <= 40 events on a real session over RSTransport / USTransport and a fake asyncio transport with a '
             'high-water mark (it calls pause_writing from inside write(), as real transports do): 1-8 concurrent senders of '
-            'messages of 1..40 bytes, draining (resume_writing), connection loss, stalls of 7..28 s around max_send_delay, with '
+            'messages of 1..40 bytes (and 70 kB / 200 kB ones), the peer\'s malformed message that makes the session\'s reading loop itself a writer '
+            '(alone, or racing with a sender that fills the buffer first), draining (resume_writing), connection loss (after which no '
+            'writer may still be blocked), stalls of 7..28 s around max_send_delay, with '
             'task scheduling points in between; observed: order of messages on the transport, messages written while it reported '
             'full, senders that timed out, reading flag, abort; non-trivial = >= 3 senders blocked at once; distinct = distinct scenario')
     trusted = ('harness/vloop.py FakeTransport (high-water mark, pause/resume, close/abort -> connection_lost)',)
@@ -98,7 +144,13 @@ class C15(Prop):
                 {'transport': 'us', 'kind': 'client', 'hwm': 5, 'events': [['send', 1, 10], ['send', 2, 10], ['send', 3, 10], ['drain'], ['tick'], ['advance', 28], ['tick']]},
                 {'transport': 'rs', 'kind': 'client', 'hwm': 5, 'events': [['send', 1, 10], ['send', 2, 10], ['tick'], ['drain'], ['tick']]},
                 {'transport': 'rs', 'hwm': 5, 'events': [['send', 1, 10], ['send', 2, 3], ['advance', 21], ['tick'], ['send', 3, 1], ['tick']]},
-                {'transport': 'rs', 'hwm': 5, 'events': [['send', 1, 10], ['send', 2, 3], ['send', 3, 3], ['lost'], ['tick']]}]
+                {'transport': 'rs', 'hwm': 5, 'events': [['send', 1, 10], ['send', 2, 3], ['send', 3, 3], ['lost'], ['tick']]},
+                # the reading loop is itself a blocked writer (its reply to a malformed message) when the connection is lost
+                {'transport': 'rs', 'hwm': 5, 'events': [['sendbad', 1, 10], ['send', 2, 3], ['lost'], ['tick']]},
+                {'transport': 'us', 'hwm': 5, 'events': [['sendbad', 1, 10], ['send', 2, 3], ['lost'], ['tick']]},
+                {'transport': 'rs', 'kind': 'client', 'hwm': 5, 'events': [['sendbad', 1, 10], ['drain'], ['tick'], ['send', 2, 3], ['tick'], ['drain'], ['tick']]},
+                {'transport': 'us', 'hwm': 200, 'events': [['bad'], ['send', 1, 300], ['send', 2, 3], ['advance', 21], ['tick']]},
+                {'transport': 'rs', 'hwm': 5, 'events': [['sendbad', 1, 10], ['send', 2, 3], ['advance', 21], ['tick']]}]
 
     def generate(self, rng, n, tier):
         for _ in range(n):
@@ -109,6 +161,10 @@ class C15(Prop):
                 if r < 0.45 and w < 12:
                     w += 1
                     ev.append(['send', w, rng.choice([1, 3, 6, 10, 40, 40, 70000, 200000])])
+                    if rng.random() < 0.12:
+                        ev[-1][0] = 'sendbad'
+                elif r < 0.48:
+                    ev.append(['bad'])
                 elif r < 0.65:
                     ev.append(['drain'])
                 elif r < 0.85:
@@ -129,15 +185,23 @@ class C15(Prop):
         if case.get('stall') or obs.get('garbled'):
             return None
         evs = []
+        delivered = list(obs['bad']['delivered'])
         for e in case['events']:
-            if e[0] == 'send':
+            if e[0] in ('send', 'sendbad'):
                 evs.append(f"(ESend {c_N(e[1])} {c_N(e[2] + len(str(e[1])) + 1 + 1)})")     # "<id>:" + payload + newline framing
+            if e[0] in ('bad', 'sendbad'):
+                if delivered.pop(0):
+                    evs.append(f"(ESend 99 {c_N(obs['bad']['size'])})")
+                elif e[0] == 'bad':
+                    evs.append('ETick')          # nothing arrives (reading is paused): the woken tasks just run
+            elif e[0] == 'send':
+                pass
             elif e[0] == 'tick':
                 evs.append('ETick')
             elif e[0] == 'drain':
                 evs.append('EDrain')
             elif e[0] == 'lost':
-                evs.append('ELost')
+                evs += ['ELost', 'ETick']
             else:
                 evs.append(f"(EAdvance {c_N(e[1])})")
         return (f"({c_N(case['hwm'])}, {c_list(evs, 'sevent')}, {c_list([c_N(x) for x in obs['wire']], 'N')}, "
@@ -157,6 +221,9 @@ class C15(Prop):
             return 'a message was written while the transport reported its send buffer full'
         if len(set(obs['wire'])) != len(obs['wire']):
             return 'a message was written twice'
+        if obs['hung_after_lost']:
+            return ('writers blocked when the connection was lost were not released: still blocked after connection_lost: %s '
+                    '(99 = the session reading loop, sending its reply to a malformed message)' % obs['hung_after_lost'])
         if obs['pending']:
             return 'a sender was left hanging'
         for w, o in obs['outcome'].items():
